@@ -27,12 +27,20 @@ pub struct TypeTracker {
     ///
     /// Ids for both defining and using types are all kept here.
     types: collections::HashMap<spirv::Word, Type>,
+    #[cfg(feature = "verif-hooks")]
+    verif_instance: usize,
 }
 
 impl TypeTracker {
     pub fn new() -> TypeTracker {
         TypeTracker {
             types: collections::HashMap::new(),
+            #[cfg(feature = "verif-hooks")]
+            verif_instance: {
+                let instance = crate::verif::new_instance();
+                crate::verif::emit(|| crate::verif::Event::TrackerNew { instance });
+                instance
+            },
         }
     }
 
@@ -62,10 +70,24 @@ impl TypeTracker {
                     .and_then(|t| self.resolve(t))
                     .map(|t| self.types.insert(rid, t));
             }
+            #[cfg(feature = "verif-hooks")]
+            if let Some(t) = self.types.get(&rid) {
+                crate::verif::emit(|| crate::verif::Event::TrackerTrack {
+                    instance: self.verif_instance,
+                    rid,
+                    ty: format!("{:?}", t),
+                });
+            }
         }
     }
 
     pub fn resolve(&self, id: spirv::Word) -> Option<Type> {
+        #[cfg(feature = "verif-hooks")]
+        crate::verif::emit(|| crate::verif::Event::TrackerResolve {
+            instance: self.verif_instance,
+            id,
+            result: self.types.get(&id).map(|t| format!("{:?}", t)),
+        });
         self.types.get(&id).cloned()
     }
 }
